@@ -64,6 +64,7 @@ type c01Trace struct {
 	stKeys map[[2]uint64]string // (streamID, fnv(name)) -> "src.stream"
 	bIDs   map[uint64]string    // batcher id -> M | D
 	fin    map[int64]int        // offset -> number of terminal finalizations (commit or drop)
+	jit    *c01Jitter
 }
 
 // evID renders an event id of a trace line: the offset, or c<parentOffset>.<index> for a child of Spawn
@@ -90,6 +91,12 @@ func (t *c01Trace) add(s string) {
 }
 
 func (t *c01Trace) sink(kind string, a, b uint64) {
+	// the trace points of stream.go run inside the stream's critical section: an occasional pause
+	// here keeps that lock held while other goroutines (batch workers committing, processors
+	// finalizing) pile up on it, which diversifies the order in which they get it
+	if t.jit != nil && (kind == "s.put" || kind == "s.get" || kind == "s.leave") {
+		t.jit.hold()
+	}
 	t.mu.Lock()
 	defer t.mu.Unlock()
 	stream := func() string {
@@ -187,6 +194,20 @@ type c01Jitter struct {
 	mu  sync.Mutex
 	rng *hx.Rng
 	on  bool
+}
+
+// hold: a longer pause for code that runs inside one of the pipeline's critical sections
+func (j *c01Jitter) hold() {
+	if j == nil || !j.on {
+		return
+	}
+	j.mu.Lock()
+	k := j.rng.Intn(6)
+	d := 100 + j.rng.Intn(300)
+	j.mu.Unlock()
+	if k == 0 {
+		time.Sleep(time.Duration(d) * time.Microsecond)
+	}
 }
 
 func (j *c01Jitter) pause() {
@@ -345,6 +366,7 @@ func execC01(t *hx.Toks) string {
 		tr.stKeys[[2]uint64{uint64(e.src + 1), fnv1a(e.stream)}] = fmt.Sprintf("%d.%s", e.src, e.stream)
 	}
 	jit := &c01Jitter{rng: hx.NewRng(jitterSeed), on: jitterSeed != 0}
+	tr.jit = jit
 
 	settings := &pipeline.Settings{
 		Capacity:            capacity,
